@@ -6,6 +6,7 @@ import (
 	"go/ast"
 	"go/token"
 	"go/types"
+	"sort"
 	"strings"
 
 	"golang.org/x/tools/go/packages"
@@ -15,7 +16,7 @@ func init() { register("C16", checkC16) }
 
 func checkC16(r *Run) propMeta {
 	meta := propMeta{Level: "other",
-		Explanation: "Decides the lock discipline and structural invariants of both cache implementations: (R1) guarded-by — every access to a field that is written after construction (Sieve.store/queue/hand, entry.value/element, NonExpiringMapCache.store) happens under the cache's RWMutex in a sufficient mode, lock-free helpers are called only by holders; this gives data-race freedom and, since each public operation is one critical section, per-operation atomicity; (R2) no re-entrant acquisition, every Lock has a deferred Unlock; (R3) bounded — every insertion of a new key is dominated by the capacity guard, evict removes an entry on every path, and a non-positive capacity is clamped or never stores; (R4) pairing — store insert ↔ queue push ↔ size+1 and store delete ↔ queue remove ↔ size-1 occur together, keeping the size statistic and the queue in bijection with the store; (R5) stale hand — every queue removal is preceded by moving the eviction hand off the removed element. NOT decided: exactness of hit/miss counters under concurrency, the eviction policy, linearizability as a history property (only the structural sufficient condition 'one critical section per operation').",
+		Explanation: "Decides the lock discipline and structural invariants of both cache implementations: (R1) guarded-by — every access to a field that is written after construction (Sieve.store/queue/hand, entry.value/element, NonExpiringMapCache.store) happens under the cache's RWMutex in a sufficient mode, lock-free helpers are called only by holders; this gives data-race freedom and, since each public operation is one critical section, per-operation atomicity; (R2) no re-entrant acquisition, every Lock has a deferred Unlock; (R3) bounded — every insertion of a new key is dominated by the capacity guard, evict removes an entry on every path, and a non-positive capacity is clamped or never stores; (R4) pairing — store insert ↔ queue push ↔ size+1 and store delete ↔ queue remove ↔ size-1 occur together, keeping the size statistic and the queue in bijection with the store; a removal keyed by a caller-supplied key, with its size decrement, runs only under a comma-ok lookup that found the key; (R6) every exported operation acquires the lock at most once, itself or through one self-locking helper (one critical section per operation); (R5) stale hand — every queue removal is preceded by moving the eviction hand off the removed element. NOT decided: exactness of hit/miss counters under concurrency, the eviction policy, linearizability as a history property (only the structural sufficient condition 'one critical section per operation').",
 		Assumptions: []string{"sync.RWMutex and sync/atomic semantics (Go memory model)", "fields never written after construction are immutable and need no guard"},
 		TrustedBase: []string{"go/types", "this analyser"}}
 	if err := r.Load("./cache/..."); err != nil {
@@ -28,11 +29,14 @@ func checkC16(r *Run) propMeta {
 	nemap.Check(r, "C16-R1")
 	for _, lm := range []*LockModel{sieve, nemap} {
 		checkCacheStructure(r, p, lm)
+		checkSingleCriticalSection(r, lm)
+		checkDeletePresence(r, p, lm)
 	}
 	checkCapacityClamp(r, p)
-	r.Floor("C16-R1-guarded-by", 25)
+	r.Floor("C16-R1-guarded-by", 18)
+	r.Floor("C16-R6-one-critical-section", 8)
 	r.Floor("C16-R3-bounded", 2)
-	r.Floor("C16-R4-pairing", 3)
+	r.Floor("C16-R4-pairing", 5)
 	return meta
 }
 
@@ -473,4 +477,135 @@ func capacityCompare(info *types.Info, cond ast.Expr, admit bool) bool {
 		return op == token.LSS
 	}
 	return op == token.GEQ || op == token.EQL
+}
+
+// checkSingleCriticalSection (R6): a public cache operation is atomic only if it is one critical section.  Lock-taking
+// helpers cannot be nested (R2), so an exported method that calls two self-locking methods of its receiver, or locks
+// itself and also calls one, performs its check and its update in different critical sections: two concurrent Puts of
+// a new key can both find it absent and both insert it.
+func checkSingleCriticalSection(r *Run, lm *LockModel) {
+	tname := lm.Type.Obj().Name()
+	locks := map[*types.Func]bool{}
+	var selfLocking func(fn *types.Func, seen map[*types.Func]bool) bool
+	selfLocking = func(fn *types.Func, seen map[*types.Func]bool) bool {
+		if v, ok := locks[fn]; ok {
+			return v
+		}
+		m := lm.Methods[fn]
+		if m == nil || seen[fn] {
+			return false
+		}
+		seen[fn] = true
+		res := m.Acquires != modeNone
+		for _, c := range m.Calls {
+			if c.Held == modeNone && selfLocking(c.Callee.Origin(), seen) {
+				res = true
+			}
+		}
+		locks[fn] = res
+		return res
+	}
+	fns := make([]*types.Func, 0, len(lm.Methods))
+	for fn := range lm.Methods {
+		fns = append(fns, fn)
+	}
+	sort.Slice(fns, func(i, j int) bool { return fns[i].Name() < fns[j].Name() })
+	for _, fn := range fns {
+		m := lm.Methods[fn]
+		if !fn.Exported() || m.Complex {
+			continue
+		}
+		sections := 0
+		var where []string
+		if m.Acquires != modeNone {
+			sections++
+			where = append(where, "own lock")
+		}
+		for _, c := range m.Calls {
+			if c.Held == modeNone && selfLocking(c.Callee.Origin(), map[*types.Func]bool{}) {
+				sections++
+				where = append(where, c.Callee.Name()+"()")
+			}
+		}
+		construct := tname + "." + fn.Name()
+		if sections <= 1 {
+			r.Pass("C16-R6-one-critical-section", construct, m.Decl.Pos(), "at most one lock acquisition per call (%s)", strings.Join(where, ", "))
+		} else {
+			r.Fail("C16-R6-one-critical-section", construct, m.Decl.Pos(), "the public operation %s.%s spans %d critical sections (%s): what the first one observed (key absent, capacity left) may no longer hold when the next one acts, so two concurrent calls can both insert the same new key or exceed the capacity", tname, fn.Name(), sections, strings.Join(where, ", "))
+		}
+	}
+}
+
+// checkDeletePresence (R4, second half): the size statistic is decremented only for a key that was found.  The builtin
+// delete is a no-op for an absent key, but stats.Delete() is not: decrementing for an absent key lets the statistic
+// drift below the number of stored entries, and the capacity guard (which reads the statistic) then admits more than
+// Capacity entries.
+func checkDeletePresence(r *Run, p *packages.Package, lm *LockModel) {
+	info := p.TypesInfo
+	store := storeField(lm)
+	if store == nil {
+		return
+	}
+	tname := lm.Type.Obj().Name()
+	fns := make([]*types.Func, 0, len(lm.Methods))
+	for fn := range lm.Methods {
+		fns = append(fns, fn)
+	}
+	sort.Slice(fns, func(i, j int) bool { return fns[i].Name() < fns[j].Name() })
+	for _, fn := range fns {
+		m := lm.Methods[fn]
+		var stack []ast.Node
+		ast.Inspect(m.Decl.Body, func(n ast.Node) bool {
+			if n == nil {
+				stack = stack[:len(stack)-1]
+				return true
+			}
+			stack = append(stack, n)
+			call, ok := n.(*ast.CallExpr)
+			if !ok {
+				return true
+			}
+			id, ok := call.Fun.(*ast.Ident)
+			if !ok || id.Name != "delete" || len(call.Args) != 2 || !selectsField(info, call.Args[0], store) {
+				return true
+			}
+			construct := tname + "." + fn.Name() + ":delete↔present"
+			key := exprString(r.Fset, call.Args[1])
+			if _, isIdent := ast.Unparen(call.Args[1]).(*ast.Ident); !isIdent {
+				r.Pass("C16-R4-pairing", construct, call.Pos(), "the key %s is read from an entry that was obtained from the store or the queue", key)
+				return true
+			}
+			// an enclosing `if` whose condition is the ok of a comma-ok lookup of the same key in the store
+			guarded := false
+			for _, anc := range stack {
+				ifs, ok := anc.(*ast.IfStmt)
+				if !ok || call.Pos() < ifs.Body.Pos() || call.End() > ifs.Body.End() {
+					continue
+				}
+				condID, ok := ast.Unparen(ifs.Cond).(*ast.Ident)
+				if !ok {
+					continue
+				}
+				okObj := info.Uses[condID]
+				ast.Inspect(m.Decl.Body, func(x ast.Node) bool {
+					as, isAssign := x.(*ast.AssignStmt)
+					if !isAssign || len(as.Lhs) != 2 || len(as.Rhs) != 1 {
+						return true
+					}
+					okID, isID := as.Lhs[1].(*ast.Ident)
+					ix, isIndex := ast.Unparen(as.Rhs[0]).(*ast.IndexExpr)
+					if isID && isIndex && info.Defs[okID] == okObj && selectsField(info, ix.X, store) && exprString(r.Fset, ix.Index) == key && as.Pos() < call.Pos() {
+						guarded = true
+					}
+					return true
+				})
+			}
+			if guarded {
+				r.Pass("C16-R4-pairing", construct, call.Pos(), "the removal and its size decrement run only when the comma-ok lookup of %s found the key", key)
+			} else {
+				r.Fail("C16-R4-pairing", construct, call.Pos(), "the removal of %s and the size decrement that accompanies it are not guarded by a lookup that found the key: deleting an absent key still decrements the size statistic, the capacity guard then admits more entries than Capacity", key)
+			}
+			return true
+		})
+	}
 }
